@@ -182,6 +182,186 @@ func c13One(c *mc.Ctx, fields []ref.Field, desc string) {
 	}
 }
 
+// ---- GetUnknownFields: the reflect entry point over every shape of carrier struct ----
+
+type c13Plain struct {
+	A              int64
+	_unknownFields []byte
+}
+type c13Inner struct {
+	N              string
+	_unknownFields []byte
+}
+type c13EmbFirst struct {
+	c13Inner
+	Z int
+}
+type c13EmbLater struct {
+	Pad [3]int64
+	S   string
+	c13Inner
+}
+type c13EmbPtr struct {
+	Pad int64
+	*c13Inner
+}
+type c13Deep struct {
+	X uint16
+	c13EmbLater
+}
+type c13NoField struct{ A int }
+
+type c13GetCase struct {
+	Kind int    `json:"carrier_kind"`
+	Hex  string `json:"fields_hex"`
+}
+
+var c13Carriers = []string{"plain struct by value", "pointer to plain struct", "embedded first, by value", "embedded first, by pointer",
+	"embedded at a non-zero offset, by value", "embedded at a non-zero offset, by pointer", "embedded pointer, by pointer", "embedded twice deep at non-zero offsets, by pointer",
+	"embedded twice deep, by value", "no such field", "not a struct", "nil pointer"}
+
+func c13Get(c *mc.Ctx, k c13GetCase) {
+	c.Eval(1)
+	enc, _ := hex.DecodeString(k.Hex)
+	buf := append([]byte{}, enc...)
+	other := []byte{0x0b, 0x00, 0x63, 0, 0, 0, 1, 'W'} // a decoy field list stored next to the real one
+	var v interface{}
+	wantErr := false
+	switch k.Kind {
+	case 0:
+		v = c13Plain{A: 0x0102030405060708, _unknownFields: buf}
+	case 1:
+		v = &c13Plain{A: -1, _unknownFields: buf}
+	case 2:
+		v = c13EmbFirst{c13Inner: c13Inner{N: string(other), _unknownFields: buf}, Z: 5}
+	case 3:
+		v = &c13EmbFirst{c13Inner: c13Inner{N: string(other), _unknownFields: buf}, Z: 5}
+	case 4:
+		v = c13EmbLater{Pad: [3]int64{int64(len(other)), int64(len(other)), 8}, S: string(other), c13Inner: c13Inner{N: "n", _unknownFields: buf}}
+	case 5:
+		v = &c13EmbLater{Pad: [3]int64{int64(len(other)), int64(len(other)), 8}, S: string(other), c13Inner: c13Inner{N: "n", _unknownFields: buf}}
+	case 6:
+		v = &c13EmbPtr{Pad: 7, c13Inner: &c13Inner{N: string(other), _unknownFields: buf}}
+	case 7:
+		v = &c13Deep{X: 9, c13EmbLater: c13EmbLater{S: string(other), c13Inner: c13Inner{N: string(other), _unknownFields: buf}}}
+	case 8:
+		v = c13Deep{X: 9, c13EmbLater: c13EmbLater{S: string(other), c13Inner: c13Inner{N: string(other), _unknownFields: buf}}}
+	case 9:
+		v, wantErr = &c13NoField{1}, true
+	case 10:
+		v, wantErr = 42, true
+	case 11:
+		v, wantErr = (*c13Plain)(nil), true
+	}
+	bad := func(format string, a ...interface{}) {
+		c.Violate("get", "C13|get-unknown-fields", fmt.Sprintf("GetUnknownFields on %s holding %s: ", c13Carriers[k.Kind], mc.Hex(enc))+fmt.Sprintf(format, a...), k)
+	}
+	var got []unknownfields.UnknownField
+	var err error
+	if pi := mc.Try(func() { got, err = unknownfields.GetUnknownFields(v) }); pi != nil {
+		bad("panic: %s at %s", pi.Msg, pi.Frame)
+		return
+	}
+	if wantErr {
+		if err == nil {
+			bad("no error (returned %d fields)", len(got))
+		}
+		return
+	}
+	want, werr := unknownfields.ConvertUnknownFields(append([]byte{}, enc...))
+	if (err != nil) != (werr != nil) || len(got) != len(want) {
+		bad("(%d fields, %v); ConvertUnknownFields on the same bytes gives (%d fields, %v)", len(got), err, len(want), werr)
+		return
+	}
+	for i := range want {
+		if d := c13Diff(fmt.Sprintf("field#%d", i), got[i], want[i], true); d != "" {
+			bad("differs from ConvertUnknownFields on the same bytes: %s", d)
+			return
+		}
+	}
+	if !bytes.Equal(buf, enc) {
+		bad("the stored bytes were modified")
+	}
+}
+
+// ---- trees that share sub-trees: a Value slice attached to more than one node ----
+
+type c13SharedCase struct {
+	T     int8 `json:"shared_type"`
+	Where int  `json:"where"` // 0: two top-level fields; 1: two fields of one struct; 2: twice in one list; 3: as two map values; 4: measured/written twice in a row
+	N     int  `json:"members"`
+}
+
+func c13Shared(c *mc.Ctx, k c13SharedCase) {
+	c.Eval(1)
+	v := gen.Small(k.T, 1)
+	switch k.T {
+	case ref.LIST, ref.SET:
+		v.L = nil
+		for j := 0; j < k.N; j++ {
+			v.L = append(v.L, gen.Small(v.Elem, j))
+		}
+	case ref.MAP:
+		v.L = nil
+		for j := 0; j < k.N; j++ {
+			v.L = append(v.L, gen.Small(v.Key, j), gen.Small(v.Elem, j+1))
+		}
+	case ref.STRUCT:
+		v.F = nil
+		for j := 0; j < k.N; j++ {
+			v.F = append(v.F, ref.Field{ID: int16(j + 1), V: gen.Small(ref.I32, j)})
+		}
+	}
+	shared := c13Expect(1, &v)
+	second := shared // same Value slice
+	second.ID = 2
+	var tree []unknownfields.UnknownField
+	var want []byte
+	switch k.Where {
+	case 0, 4:
+		tree = []unknownfields.UnknownField{shared, second}
+		want = ref.EncodeField(ref.EncodeField(nil, 1, &v), 2, &v)
+	case 1:
+		tree = []unknownfields.UnknownField{{ID: 9, Type: ref.STRUCT, Value: []unknownfields.UnknownField{shared, second}}}
+		outer := ref.Value{T: ref.STRUCT, F: []ref.Field{{ID: 1, V: v}, {ID: 2, V: v}}}
+		want = ref.EncodeField(nil, 9, &outer)
+	case 2:
+		tree = []unknownfields.UnknownField{{ID: 9, Type: ref.LIST, ValType: k.T, Value: []unknownfields.UnknownField{shared, second, shared}}}
+		outer := ref.Value{T: ref.LIST, Elem: k.T, L: []ref.Value{v, v, v}}
+		want = ref.EncodeField(nil, 9, &outer)
+	case 3:
+		k1, k2 := gen.Small(ref.I16, 1), gen.Small(ref.I16, 2)
+		tree = []unknownfields.UnknownField{{ID: 9, Type: ref.MAP, KeyType: ref.I16, ValType: k.T, Value: []unknownfields.UnknownField{c13Expect(0, &k1), shared, c13Expect(1, &k2), second}}}
+		outer := ref.Value{T: ref.MAP, Key: ref.I16, Elem: k.T, L: []ref.Value{k1, v, k2, v}}
+		want = ref.EncodeField(nil, 9, &outer)
+	}
+	bad := func(format string, a ...interface{}) {
+		c.Violate("shared", "C13|shared-subtree", fmt.Sprintf("a well-typed acyclic tree in which one %s value of %d members is attached to two nodes (placement %d): ", map[int8]string{ref.LIST: "list", ref.SET: "set", ref.MAP: "map", ref.STRUCT: "struct"}[k.T], k.N, k.Where)+fmt.Sprintf(format, a...), k)
+	}
+	rounds := 1
+	if k.Where == 4 {
+		rounds = 3
+	}
+	pi := mc.Try(func() {
+		for r := 0; r < rounds; r++ {
+			n, err := unknownfields.UnknownFieldsLength(tree)
+			if err != nil || n != len(want) {
+				bad("UnknownFieldsLength (call %d) = (%d, %v), want %d", r+1, n, err, len(want))
+				return
+			}
+			out := make([]byte, n+4)
+			w, err := unknownfields.WriteUnknownFields(out, tree)
+			if err != nil || w != n || !bytes.Equal(out[:w], want) {
+				bad("WriteUnknownFields (call %d) = (%d, %v) %s, want %s", r+1, w, err, mc.Hex(out[:w]), mc.Hex(want))
+				return
+			}
+		}
+	})
+	if pi != nil {
+		bad("panic: %s at %s", pi.Msg, pi.Frame)
+	}
+}
+
 func c13Run(c *mc.Ctx) {
 	setAllocCap(64 << 20)
 	ids := []int16{1, -1, 0x7fff}
@@ -300,15 +480,72 @@ func c13Run(c *mc.Ctx) {
 		c13One(c, []ref.Field{{ID: 3, V: m}}, fmt.Sprintf("map of %d entries", n/2+1))
 	}
 	c.Done("empty containers of all 121 key/value type pairs; containers whose members differ in encoded size; element counts 32767..65536")
+	// wide and shallow: many (empty and non-empty) containers in one message, far more than any nesting limit
+	for _, rows := range []int{63, 64, 65, 66, 129, 300, 5000} {
+		if !c.Mine() {
+			continue
+		}
+		for variant := 0; variant < 3; variant++ {
+			row := ref.Value{T: ref.STRUCT, F: []ref.Field{{ID: 1, V: gen.Small(ref.I64, 3)}}}
+			switch variant {
+			case 0: // one empty optional collection per row
+				row.F = append(row.F, ref.Field{ID: 2, V: ref.Value{T: ref.LIST, Elem: ref.STRING, L: []ref.Value{}}})
+			case 1:
+				row.F = append(row.F, ref.Field{ID: 2, V: ref.Value{T: ref.MAP, Key: ref.STRING, Elem: ref.I32, L: []ref.Value{}}}, ref.Field{ID: 3, V: ref.Value{T: ref.SET, Elem: ref.I16, L: []ref.Value{}}})
+			case 2:
+				row.F = append(row.F, ref.Field{ID: 2, V: ref.Value{T: ref.LIST, Elem: ref.I16, L: []ref.Value{gen.Small(ref.I16, 1)}}}, ref.Field{ID: 3, V: ref.Value{T: ref.STRUCT}})
+			}
+			l := ref.Value{T: ref.LIST, Elem: ref.STRUCT}
+			var flat []ref.Field
+			for i := 0; i < rows; i++ {
+				l.L = append(l.L, row)
+				flat = append(flat, ref.Field{ID: int16(i + 1), V: row.F[1].V})
+			}
+			c13One(c, []ref.Field{{ID: 1, V: l}}, fmt.Sprintf("list of %d rows, variant %d", rows, variant))
+			c13One(c, flat, fmt.Sprintf("%d top-level containers, variant %d", rows, variant))
+		}
+	}
+	c.Done("wide shallow messages: 63..5000 rows / top-level fields each carrying empty or one-element containers")
+	// shared sub-trees
+	for _, t := range []int8{ref.LIST, ref.SET, ref.MAP, ref.STRUCT} {
+		for where := 0; where <= 4; where++ {
+			for _, n := range []int{0, 1, 3} {
+				if c.Mine() {
+					c.Distinct("shared", t, where, n)
+					c13Shared(c, c13SharedCase{T: t, Where: where, N: n})
+				}
+			}
+		}
+	}
+	c.Done("hand-built acyclic trees sharing one list/set/map/struct value between two nodes (5 placements x 0/1/3 members), measured and written up to 3 times")
+	// the reflect entry point
+	getHex := []string{"0800010000002a", "0b0002000000026869" + "0f00030600000002" + "00010002", "0d00040b0800000001000000016b0000002a" + "0c0005" + "02000101" + "00"}
+	for kind := range c13Carriers {
+		for _, hx := range getHex {
+			if c.Mine() {
+				c.Distinct("get", kind, hx)
+				c13Get(c, c13GetCase{Kind: kind, Hex: hx})
+			}
+		}
+	}
+	c.Done(fmt.Sprintf("GetUnknownFields over %d carrier shapes (by value / by pointer, the field promoted from structs embedded at offset 0, at non-zero offsets, twice deep, through a pointer; no field; not a struct; nil) x 3 field lists, against ConvertUnknownFields on the same bytes", len(c13Carriers)))
 }
 
 func init() {
 	Register(&Check{
 		ID: "C13", Level: "exploration",
-		Rule:        "every generated value tree as a single field; all sequences of <= 3 top-level fields over one representative per type; inside nested structs all 121 ordered pairs and 1331 triples of field types (also inside a list and as a map value); empty containers of all 121 key/value type pairs; members of different sizes; ids {1,-1,0x7fff}; both directions (bytes -> tree -> bytes and tree -> bytes -> tree); distinct = distinct field encodings",
+		Rule:        "every generated value tree as a single field; all sequences of <= 3 top-level fields over one representative per type; inside nested structs all 121 ordered pairs and 1331 triples of field types (also inside a list and as a map value); empty containers of all 121 key/value type pairs; members of different sizes; ids {1,-1,0x7fff}; both directions (bytes -> tree -> bytes and tree -> bytes -> tree); wide shallow messages (63..5000 containers); trees sharing sub-trees; GetUnknownFields over 12 carrier shapes; distinct = distinct field encodings",
 		Assumptions: []string{"bool bytes are canonical (0/1); ids of list/set/map members are not on the wire and are not compared; nil and empty member lists are equivalent"},
 		Run:         c13Run,
 		Replay: func(c *mc.Ctx, sub string, raw json.RawMessage) {
+			if sub == "get" {
+				replayAs(raw, func(k c13GetCase) { c13Get(c, k) })
+				return
+			}
+			if sub == "shared" {
+				replayAs(raw, func(k c13SharedCase) { c13Shared(c, k) })
+				return
+			}
 			replayAs(raw, func(k c13Case) {
 				enc, _ := hex.DecodeString(k.Hex)
 				setAllocCap(64 << 20)
